@@ -36,7 +36,7 @@ var DefaultConfig = func() Config {
 			keepalive := inactivity.NewKeepAlive(maxRetries, onInactive, func(cc *client.Conn, receivePong func()) (func(), error) {
 				return cc.AsyncPing(receivePong)
 			})
-			return inactivity.New(timeout/time.Duration(maxRetries+1), keepalive.OnInactive)
+			return inactivity.NewKeepAliveMonitor(timeout/time.Duration(maxRetries+1), keepalive)
 		},
 		OnNewConn: func(*client.Conn) {
 			// do nothing by default
